@@ -244,6 +244,11 @@ func TestC04(t *testing.T) {
 					j := rapid.IntRange(0, i-1).Draw(rt, "shareLs")
 					nd.Ls = nodes[j].Ls // the same slice in two nodes
 					fmt.Fprintf(&sb, "n%d.Ls==n%d.Ls ", i, j)
+					if len(nd.Ls) > 1 && rapid.Bool().Draw(rt, "prefixOnly") {
+						// a shorter slice of the same array is a different list
+						nd.Ls = nd.Ls[:rapid.IntRange(1, len(nd.Ls)-1).Draw(rt, "prefixLen")]
+						fmt.Fprintf(&sb, "(prefix of %d) ", len(nd.Ls))
+					}
 				}
 			default:
 				k := rapid.IntRange(0, 4).Draw(rt, "lsLen")
